@@ -1,4 +1,5 @@
 import GB.C18.Proofs
+import GB.C18.HBProofs
 import GB.Generated.Lockset
 import GB.Generated.Facts
 import GB.C02.Props   -- CONFINEMENT BACKING block at the end of this file
@@ -17,7 +18,7 @@ import GB.C16.Props   -- idem
 -/
 open GB GB.C18
 
-def C18_table : List Acc := GB.Generated.accesses.map (fun a => ⟨a.field, a.fn, a.write, a.locks, a.own, a.fresh⟩)
+def C18_table : List Acc := GB.Generated.accesses.map (fun a => ⟨a.field, a.fn, a.write, a.locks, a.own, a.fresh, a.pre, a.post, a.roots⟩)
 
 /-- The extractor type-checked every package without errors. -/
 theorem C18_lockset_loaded : GB.Generated.locksetLoadErrors = 0 := by decide
@@ -66,8 +67,8 @@ theorem C18_lockset (a b : Acc) (ha : a ∈ C18_table) (hb : b ∈ C18_table) (h
     (race detector scenario `straggler-http`). -/
 theorem C18_writtenStatus_needs_fence :
     ∃ a b, a ∈ C18_table ∧ b ∈ C18_table ∧ conflict a b = true ∧ commonLock a b = false ∧ confined a b = true := by
-  refine ⟨⟨"webbridge.responseWrapper.writtenStatus", "webbridge.responseWrapper.Write", true, [], [], false⟩,
-          ⟨"webbridge.responseWrapper.writtenStatus", "webbridge.writeError", false, [], [], false⟩, ?_, ?_, ?_, ?_, ?_⟩
+  refine ⟨⟨"webbridge.responseWrapper.writtenStatus", "webbridge.responseWrapper.Write", true, [], [], false, [], [], ["webbridge.responseWrapper.Write"]⟩,
+          ⟨"webbridge.responseWrapper.writtenStatus", "webbridge.writeError", false, [], [], false, ["call:Forward"], [], ["webbridge.TranscodedHTTPBridge.ServeHTTP"]⟩, ?_, ?_, ?_, ?_, ?_⟩
   · decide +kernel
   · decide +kernel
   · decide
@@ -104,6 +105,333 @@ theorem C18_mutex_exclusive (h : Holders) (l t1 t2 : Nat) (h1 : h l = some t1) (
 /-- Non-vacuity: a concrete well-formed trace meeting the hypotheses of `C18_common_lock_orders`. -/
 example : runEv (fun _ => none) [Ev.acq 1 7, Ev.acc 1 0, Ev.rel 1 7, Ev.acq 2 7, Ev.acc 2 1, Ev.rel 2 7] ≠ none := by
   decide
+
+
+/-! ## Happens-before beyond mutexes (trace model GB/C18/HB.lean)
+
+  Shape of every lemma (the same as `C18_common_lock_orders`): `sA` is the state right after the first access,
+  `mid` the well-formed segment up to the acquire-side operation `q`, which is enabled in `sB`. If `q` was NOT enabled
+  in `sA`, then `mid` contains the matching release-side operation — so: first access → (program order) release op →
+  acquire op `q` → (program order) second access. Threads, objects, values and segment lengths are universal. -/
+
+theorem C18_hb_chan_send_recv (mid : List HB.Ev) (sA sB sC : HB.St) (t c : Nat)
+    (hmid : HB.run sA mid = some sB) (hempty : sA.queued c = 0) (hq : HB.step sB (.recv t c) = some sC) :
+    ∃ t' m1 m2, mid = m1 ++ HB.Ev.send t' c :: m2 := by
+  have hB : sB.queued c ≠ 0 := by
+    have := (HB.step_core hq).1; simp only [HB.stepCore] at this; split at this
+    · cases this
+    · assumption
+  obtain ⟨m1, e, m2, rfl, he⟩ := HB.enabler_between (fun s => decide (s.queued c ≠ 0))
+    (fun e => match e with | .send _ c' => decide (c' = c) | _ => false)
+    (by
+      intro s e s' hs h0 h1
+      have hc := (HB.step_core hs).1
+      simp only [decide_eq_false_iff_not, Decidable.not_not, decide_eq_true_eq] at h0 h1
+      cases e <;> simp only [HB.stepCore] at hc <;> (try split at hc) <;> (try cases hc) <;> (try exact absurd h0 h1)
+      all_goals (simp only [HB.upd] at h1; split at h1 <;> simp_all <;> omega))
+    mid sA sB hmid (by simp [hempty]) (by simp [hB])
+  cases e <;> simp at he
+  subst he
+  exact ⟨_, m1, m2, rfl⟩
+
+/-- close → receive-of-closed. -/
+theorem C18_hb_close_recv (mid : List HB.Ev) (sA sB sC : HB.St) (t c : Nat)
+    (hmid : HB.run sA mid = some sB) (hopen : sA.closed c = false) (hq : HB.step sB (.recvClosed t c) = some sC) :
+    ∃ t' m1 m2, mid = m1 ++ HB.Ev.close t' c :: m2 := by
+  have hB : sB.closed c = true := by
+    have := (HB.step_core hq).1; simp only [HB.stepCore] at this; split at this
+    · rename_i h; exact h.1
+    · cases this
+  obtain ⟨m1, e, m2, rfl, he⟩ := HB.enabler_between (fun s => s.closed c)
+    (fun e => match e with | .close _ c' => decide (c' = c) | _ => false)
+    (by
+      intro s e s' hs h0 h1
+      have hc := (HB.step_core hs).1
+      cases e <;> simp only [HB.stepCore] at hc <;> (try split at hc) <;> (try cases hc) <;> (try (rw [h0] at h1; cases h1))
+      all_goals (simp only [HB.upd] at h1; split at h1 <;> simp_all))
+    mid sA sB hmid hopen hB
+  cases e <;> simp at he
+  subst he
+  exact ⟨_, m1, m2, rfl⟩
+
+/-- sync.Once / sync.OnceFunc: a call returns only after the (single) execution of the function completed. -/
+theorem C18_hb_once (mid : List HB.Ev) (sA sB sC : HB.St) (t o : Nat)
+    (hmid : HB.run sA mid = some sB) (hnot : sA.once o ≠ 2) (hq : HB.step sB (.onceRet t o) = some sC) :
+    ∃ t' m1 m2, mid = m1 ++ HB.Ev.onceEnd t' o :: m2 := by
+  have hB : sB.once o = 2 := by
+    have := (HB.step_core hq).1; simp only [HB.stepCore] at this; split at this
+    · assumption
+    · cases this
+  obtain ⟨m1, e, m2, rfl, he⟩ := HB.enabler_between (fun s => decide (s.once o = 2))
+    (fun e => match e with | .onceEnd _ o' => decide (o' = o) | _ => false)
+    (by
+      intro s e s' hs h0 h1
+      have hc := (HB.step_core hs).1
+      simp only [decide_eq_false_iff_not, decide_eq_true_eq] at h0 h1
+      cases e <;> simp only [HB.stepCore] at hc <;> (try split at hc) <;> (try cases hc) <;> (try exact absurd h1 h0)
+      all_goals (simp only [HB.upd] at h1; split at h1 <;> simp_all))
+    mid sA sB hmid (by simp [hnot]) (by simp [hB])
+  cases e <;> simp at he
+  subst he
+  exact ⟨_, m1, m2, rfl⟩
+
+/-- …and the function of a Once runs at most once in any well-formed trace (so "the" execution is well defined). -/
+theorem C18_once_runs_once (es : List HB.Ev) (s s' : HB.St) (o : Nat) (hr : HB.run s es = some s') :
+    HB.onceRuns o es ≤ 1 := HB.onceRuns_le_one es s s' o hr
+
+/-- sync.WaitGroup: `Wait` returns only after a `Done` when the counter was positive. -/
+theorem C18_hb_waitgroup (mid : List HB.Ev) (sA sB sC : HB.St) (t w : Nat)
+    (hmid : HB.run sA mid = some sB) (hpos : sA.wg w ≠ 0) (hq : HB.step sB (.wgWait t w) = some sC) :
+    ∃ t' m1 m2, mid = m1 ++ HB.Ev.wgDone t' w :: m2 := by
+  have hB : sB.wg w = 0 := by
+    have := (HB.step_core hq).1; simp only [HB.stepCore] at this; split at this
+    · assumption
+    · cases this
+  obtain ⟨m1, e, m2, rfl, he⟩ := HB.enabler_between (fun s => decide (s.wg w = 0))
+    (fun e => match e with | .wgDone _ w' => decide (w' = w) | _ => false)
+    (by
+      intro s e s' hs h0 h1
+      have hc := (HB.step_core hs).1
+      simp only [decide_eq_false_iff_not, decide_eq_true_eq] at h0 h1
+      cases e <;> simp only [HB.stepCore] at hc <;> (try split at hc) <;> (try cases hc) <;> (try exact absurd h1 h0)
+      all_goals (simp only [HB.upd] at h1; split at h1 <;> simp_all <;> omega))
+    mid sA sB hmid (by simp [hpos]) (by simp [hB])
+  cases e <;> simp at he
+  subst he
+  exact ⟨_, m1, m2, rfl⟩
+
+/-- `go` statement: a goroutine's first step comes after the statement that started it. -/
+theorem C18_hb_spawn (mid : List HB.Ev) (sA sB sC : HB.St) (e2 : HB.Ev)
+    (hmid : HB.run sA mid = some sB) (hnot : sA.started e2.thread = false) (hq : HB.step sB e2 = some sC) :
+    ∃ t' m1 m2, mid = m1 ++ HB.Ev.spawn t' e2.thread :: m2 := by
+  have hB : sB.started e2.thread = true := (HB.step_core hq).2
+  obtain ⟨m1, e, m2, rfl, he⟩ := HB.enabler_between (fun s => s.started e2.thread)
+    (fun e => match e with | .spawn _ c' => decide (c' = e2.thread) | _ => false)
+    (by
+      intro s e s' hs h0 h1
+      have hc := (HB.step_core hs).1
+      cases e <;> simp only [HB.stepCore] at hc <;> (try split at hc) <;> (try cases hc) <;> (try (rw [h0] at h1; cases h1))
+      all_goals (simp only [HB.upd] at h1; split at h1 <;> simp_all))
+    mid sA sB hmid hnot hB
+  cases e <;> simp at he
+  subst he
+  exact ⟨_, m1, m2, rfl⟩
+
+/-- atomics (release/acquire): a load that observes `v` comes after a store of `v` when `x` did not hold `v` before. -/
+theorem C18_hb_atomic_store_load (mid : List HB.Ev) (sA sB sC : HB.St) (t x v : Nat)
+    (hmid : HB.run sA mid = some sB) (hne : sA.val x ≠ v) (hq : HB.step sB (.load t x v) = some sC) :
+    ∃ t' m1 m2, mid = m1 ++ HB.Ev.store t' x v :: m2 := by
+  have hB : sB.val x = v := by
+    have := (HB.step_core hq).1; simp only [HB.stepCore] at this; split at this
+    · assumption
+    · cases this
+  obtain ⟨m1, e, m2, rfl, he⟩ := HB.enabler_between (fun s => decide (s.val x = v))
+    (fun e => match e with | .store _ x' v' => decide (x' = x ∧ v' = v) | _ => false)
+    (by
+      intro s e s' hs h0 h1
+      have hc := (HB.step_core hs).1
+      simp only [decide_eq_false_iff_not, decide_eq_true_eq] at h0 h1
+      cases e <;> simp only [HB.stepCore] at hc <;> (try split at hc) <;> (try cases hc) <;> (try exact absurd h1 h0)
+      all_goals (simp only [HB.upd] at h1; split at h1 <;> simp_all))
+    mid sA sB hmid (by simp [hne]) (by simp [hB])
+  cases e <;> simp at he
+  obtain ⟨h1, h2⟩ := he; subst h1; subst h2
+  exact ⟨_, m1, m2, rfl⟩
+
+/-- context: `<-ctx.Done()` returns only after the cancellation. -/
+theorem C18_hb_ctx_cancel_done (mid : List HB.Ev) (sA sB sC : HB.St) (t c : Nat)
+    (hmid : HB.run sA mid = some sB) (hlive : sA.cancelled c = false) (hq : HB.step sB (.ctxDone t c) = some sC) :
+    ∃ t' m1 m2, mid = m1 ++ HB.Ev.cancel t' c :: m2 := by
+  have hB : sB.cancelled c = true := by
+    have := (HB.step_core hq).1; simp only [HB.stepCore] at this; split at this
+    · assumption
+    · cases this
+  obtain ⟨m1, e, m2, rfl, he⟩ := HB.enabler_between (fun s => s.cancelled c)
+    (fun e => match e with | .cancel _ c' => decide (c' = c) | _ => false)
+    (by
+      intro s e s' hs h0 h1
+      have hc := (HB.step_core hs).1
+      cases e <;> simp only [HB.stepCore] at hc <;> (try split at hc) <;> (try cases hc) <;> (try (rw [h0] at h1; cases h1))
+      all_goals (simp only [HB.upd] at h1; split at h1 <;> simp_all))
+    mid sA sB hmid hlive hB
+  cases e <;> simp at he
+  subst he
+  exact ⟨_, m1, m2, rfl⟩
+
+/-- Non-vacuity, and the resolver's wake-up chain as ONE well-formed trace: main (0) arms generation 1 (plain write `acc 0 1`,
+    atomic store of notify), starts the poller (1) and a ResolveNow caller (2); the caller loads notify, wins the once, reads the
+    channel field (`acc 2 2`), closes it; the poller's receive observes the close and only then writes the field again (`acc 1 3`). -/
+example : HB.run HB.St.init [.acc 0 1, .store 0 9 1, .spawn 0 1, .spawn 0 2, .load 2 9 1, .onceBegin 2 5, .acc 2 2, .close 2 7,
+    .onceEnd 2 5, .onceRet 2 5, .recvClosed 1 7, .acc 1 3, .store 1 9 2] ≠ none := by decide
+/-- …and the same trace with the poller re-arming BEFORE the close is observed is still well-formed as a trace (nothing in the
+    primitives forbids it): it is the code's select/receive placement that excludes it — the CHECKED row `hbRows`. -/
+example : HB.run HB.St.init [.spawn 0 1, .recvClosed 1 7] = none := by decide
+example : HB.run HB.St.init [.wgAdd 0 3 1, .spawn 0 1, .acc 1 0, .wgDone 1 3, .wgWait 0 3, .acc 0 1, .send 0 4, .recv 1 4,
+    .cancel 0 6, .ctxDone 1 6] ≠ none := by decide
+
+
+/-! ## CHECKED confinement rows (happens-before operations regenerated per access) and published-object immutability -/
+
+/-- Which rows of the confinement table are CHECKED against the regenerated pre/post/roots columns (the rest is prose backed by
+    other slices' invariants or trusted). -/
+theorem C18_checked_rows :
+    (confinement.filter (fun c => c.mech.isChecked)).map (·.field) =
+      ["reflection.Resolver.lastProtoHash", "reflection.Resolver.lastServicesHash", "reflection.Resolver.methodPriority",
+       "reflection.Resolver.resolveNow", "webbridge.gRPCWebStream.trailer"] := by decide
+
+/-- Every name pair of `syncPairs` is a release/acquire pair on ONE object: atomic store → load (`C18_hb_atomic_store_load`),
+    close → receive (`C18_hb_close_recv`). -/
+theorem C18_sync_pairs_are_edges :
+    syncPairs = [("store:" ++ "reflection.Resolver.notifyResolveNow", "load:" ++ "reflection.Resolver.notifyResolveNow"),
+                 ("close:" ++ "reflection.Resolver.resolveNow", "recv:" ++ "reflection.Resolver.resolveNow")] := by decide
+
+def C18_wakeupOk (t : List Acc) : Bool := t.all fun a => t.all fun b =>
+  !(conflict a b && a.field == "reflection.Resolver.resolveNow") ||
+  ((a.roots == ["go1:reflection.Resolver.watch"] && b.roots == ["go1:reflection.Resolver.watch"]) || (edgeTo a b && edgeTo b a))
+
+/-- The resolver's wake-up row, CHECKED on the regenerated table: every conflicting pair of accesses to `Resolver.resolveNow`
+    (the poller re-arming the channel in `newResolveNow`, the once-closure of a `ResolveNow` caller reading it to close it, the
+    poller's `select` reading it) either runs on the one poller goroutine of the object (`go1:` = the single `go r.watch()` on the
+    still unpublished Resolver), or is ordered BOTH ways by a release/acquire pair: the write is followed by the atomic
+    `notifyResolveNow.Store` and the closure is entered only through a `Load` of it; the closure's read is followed by
+    `close(r.resolveNow)` and the next write is dominated by the receive from that channel. Moving `r.newResolveNow()` out from
+    under `case <-r.resolveNow:` removes "recv" from the write's `pre` column and this theorem (and `C18_lockset_partial`) fails
+    with the pair newResolveNow / newResolveNow#1 named by the driver. -/
+theorem C18_wakeup_row_checked : C18_wakeupOk C18_table = true := by decide +kernel
+
+theorem C18_wakeup_row_forall (a b : Acc) (ha : a ∈ C18_table) (hb : b ∈ C18_table) (hc : conflict a b = true)
+    (hf : a.field = "reflection.Resolver.resolveNow") :
+    (a.roots = ["go1:reflection.Resolver.watch"] ∧ b.roots = ["go1:reflection.Resolver.watch"]) ∨
+    (edgeTo a b = true ∧ edgeTo b a = true) := by
+  have h := C18_wakeup_row_checked
+  unfold C18_wakeupOk at h
+  rw [List.all_eq_true] at h
+  have h1 := h a ha
+  rw [List.all_eq_true] at h1
+  have h2 := h1 b hb
+  simp only [hc, hf, beq_self_eq_true, Bool.and_self, Bool.not_true, Bool.false_or, Bool.or_eq_true, Bool.and_eq_true,
+    beq_iff_eq] at h2
+  exact h2
+
+/-- Non-vacuity: the cross-goroutine pair is in the table, and it is ordered by edges, not by the single-goroutine clause. -/
+theorem C18_wakeup_pair_edges :
+    ∃ w r, w ∈ C18_table ∧ r ∈ C18_table ∧ w.fn = "reflection.Resolver.newResolveNow" ∧ w.write = true ∧ w.fresh = false ∧
+      r.fn = "reflection.Resolver.newResolveNow#1" ∧ conflict w r = true ∧ edgeTo w r = true ∧ edgeTo r w = true ∧
+      r.pre.contains "once" = true := by
+  refine ⟨⟨"reflection.Resolver.resolveNow", "reflection.Resolver.newResolveNow", true, [], [], false,
+      ["recv:reflection.Resolver.resolveNow"], ["store:reflection.Resolver.notifyResolveNow"], ["go1:reflection.Resolver.watch"]⟩,
+    ⟨"reflection.Resolver.resolveNow", "reflection.Resolver.newResolveNow#1", false, [], [], false,
+      ["load:reflection.Resolver.notifyResolveNow", "once"], ["close:reflection.Resolver.resolveNow"], ["reflection.Resolver.newResolveNow#1"]⟩,
+    ?_, ?_, rfl, rfl, rfl, rfl, ?_, ?_, ?_, ?_⟩
+  · decide +kernel
+  · decide +kernel
+  · decide
+  · decide
+  · decide
+  · decide
+
+/-- The other CHECKED rows as one statement over the regenerated table: a conflicting pair that lies in a checked row by name is
+    accepted only through that row's check (goroutine root / edges / dominated by the call of Forward) or a common own-mutex. -/
+theorem C18_checked_rows_hold :
+    (C18_table.all fun a => C18_table.all fun b =>
+      !conflict a b || commonLock a b || !(confinement.any fun c => rowOf c a b && c.mech.isChecked) ||
+      (confinement.any fun c => rowOf c a b && c.mech.isChecked && mechOk c.mech a b)) = true := by decide +kernel
+
+/-- "pump, then handler after Forward returned": `ProxyForwarder.Forward` defers `wg.Wait()` and each of its two pump goroutines
+    defers `wg.Done()` (`C18_hb_waitgroup`: Wait returns after the Dones), regenerated from grpcadapter/forwarder.go. -/
+theorem C18_forward_joins :
+    GB.Generated.goJoins.find? (fun j => j.1 == "grpcadapter.ProxyForwarder.Forward") =
+      some ("grpcadapter.ProxyForwarder.Forward", ["wait:$wg"],
+        [("grpcadapter.ProxyForwarder.Forward#1", ["done:$wg"]), ("grpcadapter.ProxyForwarder.Forward#2", ["done:$wg"])]) := by
+  decide
+
+/-- Objects published to lock-free readers are immutable: over all tracked packages there is NO write (field or element level)
+    to a non-fresh object of a published type outside a mutex of that object, NO `e[:0]` re-slicing of a slice somebody else may
+    hold (retained backing array reused for the next version), and NO aliasing append (D34). Published types = struct types
+    stored into an atomic.Pointer / atomic.Value / sync.Map, closed under reachability through fields, plus the element types
+    the pattern table publishes through `container/list` values. -/
+theorem C18_published_immutable : GB.Generated.postPublicationWrites = [] := by decide
+
+theorem C18_published_types :
+    GB.Generated.publishedTypes = ["grpcadapter.AdaptedClientConn", "grpcadapter.adaptedClientState", "routing.patternRoute",
+      "routing.serviceRoute", "routing.staticPatternRoutingTable", "routing.targetPatternRoutes"] := by decide
+
+
+/-- WaitGroup discipline of every function that starts goroutines from literals and defers `wg.Wait()`: each of its
+    goroutine literals defers `wg.Done()` (regenerated; with `C18_hb_waitgroup`: everything the goroutines did
+    happens-before the function's return). Covers `ProxyForwarder.Forward` and the reflection client's request pumps. -/
+theorem C18_waitgroup_discipline :
+    (GB.Generated.goJoins.all fun j => !j.2.1.contains "wait:$wg" || (j.2.2.length > 0 && j.2.2.all fun l => l.2.contains "done:$wg")) = true ∧
+    (GB.Generated.goJoins.filter fun j => j.2.1.contains "wait:$wg").map (·.1) =
+      ["grpcadapter.ProxyForwarder.Forward", "reflection.client.execFileDescriptorRequests"] := by decide
+
+/-- The construction-time write of the wake-up channel: `Build` calls `newResolveNow` on the still unpublished Resolver and the
+    `go r.watch()` statement FOLLOWS it (`C18_hb_spawn`: the poller's first step comes after the spawn). -/
+theorem C18_build_write_then_spawn :
+    ∃ w, w ∈ C18_table ∧ w.fn = "reflection.Resolver.newResolveNow" ∧ w.write = true ∧ w.fresh = true ∧
+      w.roots = ["reflection.ResolverBuilder.Build"] ∧ w.post.contains "go:reflection.Resolver.watch" = true := by
+  refine ⟨⟨"reflection.Resolver.resolveNow", "reflection.Resolver.newResolveNow", true, [], [], true, [],
+    ["go:reflection.Resolver.watch", "store:reflection.Resolver.notifyResolveNow"], ["reflection.ResolverBuilder.Build"]⟩,
+    ?_, rfl, rfl, rfl, rfl, ?_⟩
+  · decide +kernel
+  · decide
+
+/-! ### The wake-up chain, composed from the ordering lemmas (all well-formed traces) -/
+
+theorem C18_run_split (s0 s1 : HB.St) (X Y : List HB.Ev) (e : HB.Ev) (h : HB.run s0 (X ++ e :: Y) = some s1) :
+    ∃ sB sC, HB.run s0 X = some sB ∧ HB.step sB e = some sC := by
+  rw [HB.run_append] at h
+  cases hx : HB.run s0 X with
+  | none => simp [hx] at h
+  | some sB =>
+    simp only [hx, Option.bind_some, HB.run] at h
+    cases hs : HB.step sB e with
+    | none => simp [hs] at h
+    | some sC => exact ⟨sB, sC, rfl, hs⟩
+
+/-- write → read: if every store of the closure value `v` into the atomic `x` is preceded (program order of `newResolveNow`) by
+    the plain write `w` of the channel field, then in EVERY well-formed trace the write has happened before a caller's load
+    observes `v` — and the closure's read comes after that load in the caller's program order. -/
+theorem C18_wakeup_write_before_read (X Y : List HB.Ev) (s0 s1 : HB.St) (p c x v w : Nat)
+    (hrun : HB.run s0 (X ++ HB.Ev.load c x v :: Y) = some s1) (hx : s0.val x ≠ v)
+    (hpo : ∀ t U1 U2, X = U1 ++ HB.Ev.store t x v :: U2 → HB.Ev.acc p w ∈ U1) : HB.Ev.acc p w ∈ X := by
+  obtain ⟨sB, sC, hX, hs⟩ := C18_run_split s0 s1 X Y _ hrun
+  obtain ⟨t', m1, m2, hm⟩ := C18_hb_atomic_store_load X s0 sB sC c x v hX hx hs
+  have := hpo t' m1 m2 hm
+  rw [hm]; exact List.mem_append_left _ this
+
+/-- read → next write: if every `close` of the wake-up channel is preceded (program order of the once-closure) by the closure's
+    read `r` of the channel field, then in EVERY well-formed trace that read has happened before the poller's receive observes
+    the close — and the re-arming write comes after that receive in the poller's program order (the CHECKED `recv` in `pre`). -/
+theorem C18_wakeup_read_before_rearm (X Y : List HB.Ev) (s0 s1 : HB.St) (p c ch r : Nat)
+    (hrun : HB.run s0 (X ++ HB.Ev.recvClosed p ch :: Y) = some s1) (hopen : s0.closed ch = false)
+    (hpo : ∀ t U1 U2, X = U1 ++ HB.Ev.close t ch :: U2 → HB.Ev.acc c r ∈ U1) : HB.Ev.acc c r ∈ X := by
+  obtain ⟨sB, sC, hX, hs⟩ := C18_run_split s0 s1 X Y _ hrun
+  obtain ⟨t', m1, m2, hm⟩ := C18_hb_close_recv X s0 sB sC p ch hX hopen hs
+  have := hpo t' m1 m2 hm
+  rw [hm]; exact List.mem_append_left _ this
+
+/-- "pump, then handler after Forward returned": if every `Done` of the WaitGroup is preceded by the pump's write `a`, the write
+    has happened before `Wait` returns (counter positive when the pump was started). -/
+theorem C18_pump_write_before_wait (X Y : List HB.Ev) (s0 s1 : HB.St) (h g wgp a : Nat)
+    (hrun : HB.run s0 (X ++ HB.Ev.wgWait h wgp :: Y) = some s1) (hpos : s0.wg wgp ≠ 0)
+    (hpo : ∀ t U1 U2, X = U1 ++ HB.Ev.wgDone t wgp :: U2 → HB.Ev.acc g a ∈ U1) : HB.Ev.acc g a ∈ X := by
+  obtain ⟨sB, sC, hX, hs⟩ := C18_run_split s0 s1 X Y _ hrun
+  obtain ⟨t', m1, m2, hm⟩ := C18_hb_waitgroup X s0 sB sC h wgp hX hpos hs
+  have := hpo t' m1 m2 hm
+  rw [hm]; exact List.mem_append_left _ this
+
+/-- sync.WaitGroup, full form: when `Wait` returns, at least as many `Done`s have happened since any earlier point as the counter
+    held there — with ONE deferred `Done` per pump goroutine (`C18_waitgroup_discipline`) that is every pump's `Done`. -/
+theorem C18_hb_waitgroup_all (mid : List HB.Ev) (sA sB sC : HB.St) (t w : Nat)
+    (hmid : HB.run sA mid = some sB) (hq : HB.step sB (.wgWait t w) = some sC) :
+    sA.wg w ≤ HB.wgDones w mid := by
+  have hB : sB.wg w = 0 := by
+    have := (HB.step_core hq).1; simp only [HB.stepCore] at this; split at this
+    · assumption
+    · cases this
+  have := HB.wg_balance mid sA sB w hmid
+  omega
 
 
 /-! ## CONFINEMENT BACKING block: the non-mutex ordering arguments of `GB.C18.confinement`, as theorems of the
